@@ -98,6 +98,31 @@ def api_events(cfg):
     return ev
 
 
+def token_api_events(cfg, files):
+    """The integer API of FRESH anonymizers asked for every plainly spelled address of the input files: whatever the
+    text-level runs (any order, any process, any history) substitute must agree with this one mapping."""
+    ev = []
+    seen = set()
+    a4, a6 = cfg.make()
+    for name in sorted(files):
+        for tok in files[name].replace("/", " ").split():
+            if tok in seen:
+                continue
+            seen.add(tok)
+            try:
+                ip = D.ipaddress.ip_address(tok)
+            except ValueError:
+                continue
+            fam, a, W = (4, a4, 32) if ip.version == 4 else (6, a6, 128)
+            if a is None:
+                continue
+            try:
+                ev.append({"ev": "anon", "fam": fam, "x": D.bits_of(int(ip), W), "y": D.bits_of(a.anonymize(int(ip)), W)})
+            except Exception as e:
+                ev.append({"ev": "exc", "what": "api %r" % (e,)})
+    return ev
+
+
 def line_traces(cfg, lines, per_trace=60, via="stage", clauses=TEXT_CLAUSES):
     """Run lines through the real code; returns (traces, meta)."""
     traces, meta = [], []
@@ -291,7 +316,12 @@ def text_part_c05(ck, tier):
     netcfgs = [Cfg("n1", nets=list(D.PRIVATE_NETS)), Cfg("n2", ps4=0, nets=["11.11.11.11", "100.64.0.0/10"]),
                Cfg("n3", ps4=4, nets=["10.1.0.0/16", "172.20.1.1"] + list(D.PRIVATE_NETS)),
                Cfg("n4", ps4=8, pins=[], nets=["8.8.8.0/24", "8.8.0.0/16", "8.8.8.8"]),
-               Cfg("n5", nets=["10.0.0.0/8", "10.128.0.0/9", "10.200.0.0/16", "172.16.5.4/31"])]
+               Cfg("n5", nets=["10.0.0.0/8", "10.128.0.0/9", "10.200.0.0/16", "172.16.5.4/31"]),
+               # blocks shorter than /8 (addresses with another first octet), and blocks that start at the base address
+               # of a shorter pinned prefix
+               Cfg("n6", ps4=0, nets=["224.0.0.0/4", "64.0.0.0/3", "8.0.0.0/7"]),
+               Cfg("n7", ps4=0, nets=["10.0.0.0/24", "172.16.0.0/16", "192.168.0.0/24", "100.64.0.0/29"]),
+               Cfg("n8", ps4=0, pins=["100.64.0.0/10", "0.0.0.0/1"], nets=["100.64.0.0/29", "0.0.0.0/30"])]
     for cfg in netcfgs:
         _, nets = D.expected_pins_v4(cfg.pins, cfg.nets)
         addrs = []
@@ -370,9 +400,23 @@ def sample_files(r, nfiles=3, nlines=14):
                 t = t % i
             ls.append(t.format(a4=str(D.ipaddress.IPv4Address(r.choice(pool4))), b4=str(D.ipaddress.IPv4Address(r.choice(pool4))),
                                a6=str(D.ipaddress.IPv6Address(r.choice(pool6)))))
+        if f < len(SPECIAL_FILE_LINES):
+            ls += SPECIAL_FILE_LINES[f]
         name = ["r1.cfg", "sub dir/r2 é.cfg", "r3"][f % 3] if nfiles <= 3 else "f%d.cfg" % f
         files[name] = "\n".join(ls) + "\n"
     return files
+
+
+# spellings and neighbourhoods that single features get wrong: IPv6 addresses without a decimal digit, a dotted tail after
+# "::" and further groups (ISATAP), multicast, a preserved /28 with same-/24 neighbours on both sides (in two orders),
+# blocks whose base address equals the base of a shorter pinned prefix
+SPECIAL_FILE_LINES = [
+    ["neighbor dead:beef::cafe activate", "ipv6 route fe::ab/127 ::a", "tunnel source fe80::5efe:10.1.2.3", "host 11.11.11.17", "host 11.11.11.200",
+     "host 11.11.11.18", "igmp join 224.0.0.5 239.255.255.250", "host 10.0.0.5", "host 10.0.1.5", "peer 100.64.0.3 100.64.0.9"],
+    ["isatap 2001:db8::1:10.1.2.3 up", "host 11.11.11.130", "host 11.11.11.31", "host 11.11.11.32", "ospf 224.0.0.6", "host 10.0.0.200", "host 10.0.2.9",
+     "peer 100.64.0.7 100.64.1.1", "bgp ffff:abcd::dead:beef"],
+    ["host 11.11.11.201", "host 11.11.11.16", "host 11.11.11.15", "neighbor cafe::f00d:face up", "host 10.0.0.77 10.1.0.77", "mixed 1:2:3:4:5:6:10.1.2.3"],
+]
 
 
 def write_tree(root, files):
@@ -409,22 +453,30 @@ def file_level(ck, pid, tier):
     C02: main -u in a fresh process restores main -a output."""
     thorough = tier == "thorough"
     traces, meta = [], []
-    salts = ["TESTSALT", "", "zé s"] + (["0", "x" * 40] if thorough else [])
+    salts = ["TESTSALT", "", "zé s", "pfx salt"] + (["0", "x" * 40] if thorough else [])
     for si, salt in enumerate(salts):
         r = rng(pid, "files", si)
-        cfg = Cfg(salt, ps4=[8, 0, 17][si % 3], ps6=[8, 0, 17][si % 3])
+        cfg = Cfg(salt, ps4=[8, 0, 17, 8][si % 4], ps6=[8, 0, 17, 8][si % 4])
+        hb = ["--preserve-host-bits", str(cfg.ps4)]
+        # option variants (the same options on every run of the scenario, in both directions)
+        if si % 4 == 1:
+            # private blocks plus a /28 whose /24 neighbours are not preserved, no host bits kept
+            hb += ["--preserve-private-addresses", "--preserve-addresses", "11.11.11.16/28"]
+            cfg.nets = ["11.11.11.16/28"] + list(D.PRIVATE_NETS)
+        elif si % 4 == 2:
+            # preserved blocks that start at the base address of a shorter pinned prefix
+            cfg.nets = ["10.0.0.0/24", "100.64.0.0/29", "192.168.0.0/24"]
+            hb += ["--preserve-addresses", ",".join(cfg.nets)]
+        elif si % 4 == 3:
+            # a user prefix list that does not set the address classes apart
+            cfg.pins = ["10.0.0.0/8", "100.64.0.0/10"]
+            hb += ["--preserve-prefixes", ",".join(cfg.pins)]
         files = sample_files(r)
         base = tlc.subdir("files_%s_%d" % (pid, si))
         ind = os.path.join(base, "in")
         write_tree(ind, files)
-        ev = [cfg.event(TEXT_CLAUSES)] + ([] if pid == "C17" else api_events(cfg))
+        ev = [cfg.event(TEXT_CLAUSES)] + ([] if pid == "C17" else api_events(cfg) + token_api_events(cfg, files))
         texts = [None] * len(ev)
-        hb = ["--preserve-host-bits", str(cfg.ps4)]
-        if pid == "C02" and si % 2 == 1:
-            # the same preservation options on both runs: private addresses are kept in both directions
-            hb += ["--preserve-private-addresses"]
-            cfg.nets = list(D.PRIVATE_NETS)
-            ev[0] = cfg.event(TEXT_CLAUSES)
         mapfile = os.path.join(base, "ip.map")
         if pid == "C17":
             hb += ["-d", mapfile]
@@ -536,7 +588,7 @@ def file_level(ck, pid, tier):
                 for ln, o in zip(texts_in, fwd):
                     ev.append({"ev": "line", "in": cps(ln), "out": cps(o)})
                     texts.append((ln, o))
-                ucfg = Cfg(salt, ps4=cfg.ps4, ps6=cfg.ps6, undo=True)
+                ucfg = Cfg(salt, ps4=cfg.ps4, ps6=cfg.ps6, pins=cfg.pins, nets=cfg.nets, undo=True)
                 ev.append({"ev": "mode", "undo": True})
                 texts.append(None)
                 for ln in texts_in[:7] + fwd[:7]:                      # originals and images, undone on the same objects
@@ -566,7 +618,7 @@ def file_level(ck, pid, tier):
                 pair_lines(ev, texts, name, got.get(name, ""), back[name])
             # and undoing through the library on a fresh FileAnonymizer
             try:
-                ucfg = Cfg(salt, ps4=cfg.ps4, ps6=cfg.ps6, nets=cfg.nets, undo=True)
+                ucfg = Cfg(salt, ps4=cfg.ps4, ps6=cfg.ps6, pins=cfg.pins, nets=cfg.nets, undo=True)
                 fa = ucfg.make_file_anonymizer()
                 for name in sorted(got):
                     buf = io.StringIO()
@@ -602,6 +654,8 @@ def hostbits_part_c04(ck, tier):
             for flip in range(2):
                 v = t6 ^ (r.getrandbits(min(ps6, 32)) if ps6 else 0)
                 lines.append("nat64 64:ff9b::%s" % D.ipaddress.IPv4Address(v & 0xFFFFFFFF))
+                # groups, "::", further groups, then the dotted tail (ISATAP and friends)
+                lines.append("isatap fe80::5efe:%s via 2001:db8::1:%s" % (D.ipaddress.IPv4Address(v & 0xFFFFFFFF), D.ipaddress.IPv4Address((v ^ 0x01000000) & 0xFFFFFFFF)))
         t, m = line_traces(cfg, lines, via="io", clauses=["Structure", "Spelling", "Suffix", "Consistent", "Pins"])
         traces += t
         meta += m
@@ -630,6 +684,38 @@ def hostbits_part_c04(ck, tier):
         traces.append(ev)
         meta.append({"cfg": cfg.describe(), "via": "anonymize_files", "lines": [t if t else ("", "") for t in texts], "head": 0})
     judge(ck, "C04", traces, meta, "anonymize_files-default-prefixes")
+    # a user prefix list that also names IPv6 networks (the option is not restricted to IPv4): every IPv4 entry of the
+    # list is still preserved, wherever it stands in the list.  TLC is told the IPv4 entries only.
+    traces, meta = [], []
+    for vi, plist in enumerate([["2001:db8::/32", "10.0.0.0/8", "150.20.0.0/16"], ["20.0.0.0/8", "fe80::/10", "fc00::/7", "30.0.0.0/7", "2001:db8::/48"]]):
+        v4only = [x for x in plist if ":" not in x]
+        cfg = Cfg("v6-in-list-%d" % vi, ps4=[0, 8][vi], ps6=8, pins=v4only)
+        rr = rng("C04", "v6list", vi)
+        addrs = []
+        for pfx in v4only:
+            n = D.ipaddress.ip_network(pfx)
+            addrs += [int(n.network_address) | rr.getrandbits(32 - n.prefixlen) for _ in range(6)]
+        addrs += [rr.getrandbits(32) for _ in range(12)]
+        lines = ["host %s" % D.ipaddress.IPv4Address(a) for a in addrs]
+        ev = [cfg.event(["Structure", "Spelling", "Pins", "Suffix", "Consistent"])]
+        texts = [None]
+        try:
+            a4 = ipa.IpAnonymizer(cfg.salt, list(plist), preserve_suffix=cfg.ps4)
+            fa = AF.FileAnonymizer(anon_pwd=False, anon_ip=True, salt=cfg.salt, preserve_prefixes=list(plist), preserve_suffix_v4=cfg.ps4, preserve_suffix_v6=8)
+            for ln in lines:
+                o = ipa.anonymize_ip_addr(a4, ln)
+                ev.append({"ev": "line", "in": cps(ln), "out": cps(o)})
+                texts.append((ln, o))
+            src = "\n".join(lines) + "\n"
+            buf = io.StringIO()
+            fa.anonymize_io(io.StringIO(src), buf)
+            pair_lines(ev, texts, "io", src, buf.getvalue())
+        except Exception as e:
+            ev.append({"ev": "exc", "what": "prefix list with IPv6 entries: %r" % (e,)})
+            texts.append(("v6-in-list", "EXC"))
+        traces.append(ev)
+        meta.append({"cfg": dict(cfg.describe(), given_list=plist), "via": "stage+io", "lines": [t if t else ("", "") for t in texts], "head": 0})
+    judge(ck, "C04", traces, meta, "prefix-list-with-ipv6-entries")
 
 
 # ---------------------------------------------------------------------------
@@ -643,16 +729,18 @@ def cli_part_c01(ck, tier):
     combos = [
         ([], None, None, 8),
         (["--preserve-private-addresses", "--preserve-addresses", "20.0.0.0/16,11.11.11.11"], list(D.PRIVATE_NETS) + ["20.0.0.0/16", "11.11.11.11"], None, 8),
-        (["--preserve-prefixes", "20.0.0.0/8,11.0.0.0/8", "--preserve-host-bits", "0"], None, ["20.0.0.0/8", "11.0.0.0/8"], 0),
+        (["--preserve-prefixes", "20.0.0.0/8,11.0.0.0/8", "--preserve-host-bits", "0", "--preserve-addresses", "20.0.0.0/24,11.0.0.0/30"],
+         ["20.0.0.0/24", "11.0.0.0/30"], ["20.0.0.0/8", "11.0.0.0/8"], 0),
         (["--preserve-private-addresses", "--preserve-host-bits", "17"], list(D.PRIVATE_NETS), None, 17),
     ]
-    for vi, (opts, nets, pins, hb) in enumerate(combos[: 4 if tier == "thorough" else 3]):
-        base = tlc.subdir("c01cli_%d" % vi)
+    runs = [(vi, sx, c) for vi, c in enumerate(combos[: 4 if tier == "thorough" else 3]) for sx in ("", "/alt", "/3")]
+    for vi, sx, (opts, nets, pins, hb) in runs:
+        base = tlc.subdir("c01cli_%d%s" % (vi, sx.replace("/", "_")))
         os.makedirs(base, exist_ok=True)
-        cfg = Cfg("c01-cli-%d" % vi, ps4=hb, ps6=hb, pins=pins, nets=nets)
-        rr = rng("C01", "cli", vi)
+        cfg = Cfg("c01-cli-%d%s" % (vi, sx), ps4=hb, ps6=hb, pins=pins, nets=nets)
+        rr = rng("C01", "cli", vi, sx)
         lines = []
-        for b4 in (0x14000509, 0x0B0B0B1B, rr.getrandbits(32), 0x0A010203):
+        for b4 in (0x14000509, 0x14000009, 0x0B000002, 0x0B0B0B1B, rr.getrandbits(32), 0x0A010203, 0xE0000005, 0xEFFFFFFA):
             for k in (3, 7, 9, 15, 16, 23, 27, 30):
                 lines.append("a %s b %s" % (D.ipaddress.IPv4Address(b4), D.ipaddress.IPv4Address(b4 ^ (1 << (31 - k)) ^ rr.getrandbits(max(31 - k, 1) - 1 if 31 - k > 1 else 0))))
         for b6 in ((0x64FF9B << 104) | 0x0A010203, rr.getrandbits(128), (0x20010DB8 << 96) | 0xAC140101):
@@ -680,5 +768,5 @@ def cli_part_c01(ck, tier):
             pair_lines(ev, texts, "in.cfg", src, open(os.path.join(base, "out.cfg")).read())
         traces.append(ev)
         meta.append({"cfg": dict(cfg.describe(), cli=opts), "via": "main", "lines": [t if t else ("", "") for t in texts], "head": 0})
-        ck.count(("c01cli", vi))
+        ck.count(("c01cli", vi, sx))
     judge(ck, "C01", traces, meta, "command-line")
